@@ -286,7 +286,13 @@ fn tight_c(o: &Arc<dyn CObj>) -> Option<Fail> {
         if c.is_nan() || p.is_nan() {
             return None;
         }
-        Some(p > 0.0 || (c > 0.0 && c < 1.0))
+        // a density that has merely underflowed (very concentrated laws: LogNormal(0, 2e-4) at 0.989 is 50 sigma out)
+        // is still positive mathematically: the log-density, where the family has one, decides
+        let l = match catch(|| o.ln_pdf(x)) {
+            Out::Ok(Some(l)) => l,
+            _ => f64::NEG_INFINITY,
+        };
+        Some(p > 0.0 || (c > 0.0 && c < 1.0) || (l.is_finite()))
     };
     if mn.is_finite() {
         for p in [1e-6, 1e-30, 1e-100] {
